@@ -92,7 +92,7 @@ def main():
                      "kind_free_text": "Rust module compiled into the fml binary under --cfg kondziu_fml_verif: generators, reference models, monitors; driven by ./check (python3 stdlib)"}],
         "checks": checks,
         "not_applicable": na,
-        "notes": "Technique family: runtime monitoring and sanitizers. Exit 0 held / 1 violation / 2 inconclusive. Known findings in KNOWN_FINDINGS.txt.",
+        "notes": "Technique family: runtime monitoring and sanitizers. Exit 0 held / 1 violation / 2 inconclusive (too few conclusive executions, watchdog). Known findings (exact signatures) and fixed defects in KNOWN_FINDINGS.txt: nine `fix:` commits in /repo (D1-D5, D7, D9, D10, D12), known: C06 ast-recursion-limit x3, C12 compile-order-hazard x2, C10 native-stack-overflow:deep-source x3. VERIF_SEED selects the seed (default 1). DESIGN.md: approach, deviations, alarm triage (8.4), seeded rounds (9), sanitizers (10).",
     }
     json.dump(m, open("/verif/MANIFEST.json","w"), indent=1)
 main()
